@@ -14,6 +14,16 @@
 (*   Gen = "rules"     one template per rule left-hand side of the         *)
 (*                     rewriter, metavariables ranging over small sets     *)
 (*   Gen = "random"    NumRandom random terms of depth <= MaxDepth         *)
+(*   Gen = "ext"       the rest of the quantifier: complex values (complex, *)
+(*                     real, imag, conjugate, arithmetic on complex terms   *)
+(*                     and constants), up/downcast chains, lists/items,     *)
+(*                     kinds with point rules (log 1, log1p 0, ...), hypot, *)
+(*                     is_finite.  Extra leaves: <<"sym", "z"/"w">> complex *)
+(*                     symbols, <<"cnum", lit>> complex constant like z,    *)
+(*                     <<"numz", lit>> real literal with a complex like,    *)
+(*                     <<"idx", i>> a Python int index, <<"idxc", i>> an    *)
+(*                     integer constant index                               *)
+(*   Gen = "extrandom" NumRandom random terms over the extended kinds      *)
 (***************************************************************************)
 EXTENDS Naturals, Sequences, FiniteSets, TLC
 
@@ -132,14 +142,96 @@ RandB(d) ==
              [] c <= 8 -> Op1("logical_not", RandB(d - 1))
              [] OTHER -> Op3("select", RandB(d - 1), RandB(d - 1), RandB(d - 1))
 
+
+(*************************** "ext": complex, casts, lists, point rules ******)
+Z == Sym("z")
+W == Sym("w")
+Cx(a, b) == Op2("complex", a, b)
+Conj(a) == Op1("conjugate", a)
+CNum(s) == <<"cnum", s>>
+NumZ(s) == <<"numz", s>>
+Up(a) == Op1("upcast", a)
+Down(a) == Op1("downcast", a)
+List3(a, b, c) == <<"list", a, b, c>>
+Item(l, i) == Op2("item", l, i)
+CLeaves == {Z, W, Cx(X, Y), Cx(X, Num("0")), Cx(Num("1"), Y), CNum("1+2j"), CNum("3+4j"), CNum("0"), CNum("1j")}
+CT1 == CLeaves \cup {Conj(Z), Conj(Cx(X, Y)), Op1("negative", Z), Op2("add", Z, W), Op2("subtract", Z, Cx(X, Y)),
+                     Op2("multiply", Z, W), Op2("add", Z, X), Op3("select", Sym("b"), Z, W), Conj(Conj(Z))}
+CU == {"conjugate", "real", "imag", "negative", "absolute", "square", "positive"}
+PointK == {"log", "log2", "log10", "log1p", "exp", "expm1", "sin", "cos", "sinh", "cosh", "tan", "tanh", "asin", "acos",
+           "asinh", "acosh", "atan", "atanh", "sqrt"}
+R3 == {X, AbsX, Op2("add", X, Y), Op2("multiply", X, Y), Num("1"), Num("1/2"), Op1("sqrt", AbsX)}
+ExtTerms ==
+  \* complex structure
+     {Op1(k, c) : k \in CU, c \in CT1}
+  \cup {Op1(k, Op1(k2, c)) : k \in {"conjugate", "real", "imag", "negative"}, k2 \in {"conjugate", "negative"}, c \in {Z, Cx(X, Y), CNum("1+2j")}}
+  \cup {Cx(Op1("real", c), Op1("imag", d)) : c \in {Z, Cx(X, Y)}, d \in {Z, W, Cx(X, Y)}}
+  \cup {Cx(Op1("imag", Z), Op1("real", Z)), Cx(Op1("negative", X), Op1("negative", Y)), Cx(Num("0"), Num("0"))}
+  \cup {Op2(k, c, d) : k \in {"add", "subtract", "multiply", "divide"}, c \in CLeaves \cup {NumZ("0"), NumZ("1"), Conj(Z)},
+                       d \in {Z, W, CNum("1+2j"), CNum("0"), NumZ("0"), NumZ("1"), NumZ("2"), X, Num("0"), Num("1")}}
+  \cup {Op2(k, c, d) : k \in {"eq", "ne"}, c \in {Z, CNum("1+2j"), Cx(X, Y)}, d \in {Z, W, CNum("1+2j"), Conj(Z)}}
+  \cup {Sel(p, c, d) : p \in {Sym("b"), Op2("lt", X, Y), BoolC(TRUE)}, c \in {Z, Conj(Z), CNum("1j")}, d \in {Z, W, Conj(Z)}}
+  \cup {Op1(k, Sel(p, c, d)) : k \in {"real", "imag", "conjugate"}, p \in {Sym("b")}, c \in {Z, Cx(X, Y)}, d \in {W, Cx(Y, X)}}
+  \* casts
+  \cup {Up(Down(a)) : a \in R3} \cup {Down(Up(a)) : a \in R3} \cup {Up(Up(Down(Down(a)))) : a \in {X}}
+  \cup {Down(Down(Up(Up(a)))) : a \in {X}} \cup {Up(Down(Up(a))) : a \in {X, AbsX}} \cup {Down(Up(Down(a))) : a \in {X, AbsX}}
+  \cup {Down(Op2(k, Up(a), Up(b))) : k \in {"add", "multiply", "subtract", "divide"}, a \in {X, Num("1")}, b \in {Y, X}}
+  \cup {Up(Op2(k, Down(a), Down(b))) : k \in {"add", "multiply"}, a \in {X}, b \in {Y, X}}
+  \cup {Down(Op1(k, Up(a))) : k \in {"square", "sqrt", "absolute", "negative"}, a \in {X, AbsX}}
+  \cup {Down(Op1("square", Up(Down(Op1("square", Up(X)))))), Op2("lt", Up(X), Up(Y)), Op2("lt", Up(Down(X)), Y),
+        Sel(Op2("lt", X, Y), Up(Down(X)), Y), Op2("add", Up(Down(X)), Down(Up(Y)))}
+  \cup {Up(n) : n \in {Num("1"), Num("0.1"), Named("largest"), Named("eps")}} \cup {Down(n) : n \in {Num("1"), Num("0.1"), Named("largest"), Named("smallest")}}
+  \* lists and items
+  \cup {Item(List3(a, b, c), i) : a \in {X, Num("0")}, b \in {Y, AbsX}, c \in {Op2("add", X, Y)}, i \in {<<"idx", 0>>, <<"idx", 1>>, <<"idx", 2>>, <<"idxc", 1>>}}
+  \cup {Item(List3(Z, X, Sym("b")), i) : i \in {<<"idx", 0>>, <<"idx", 1>>, <<"idx", 2>>}}
+  \cup {Op2("add", Item(List3(X, Y, Num("1")), <<"idx", 0>>), Item(List3(X, Y, Num("1")), <<"idx", 2>>)),
+        Item(List3(List3(X, Y, Num("1")), X, Y), <<"idx", 0>>), Item(Item(List3(List3(X, Y, Num("1")), X, Y), <<"idx", 0>>), <<"idx", 1>>),
+        List3(Op2("add", X, Num("0")), Op1("negative", Op1("negative", Y)), Sel(BoolC(TRUE), X, Y)),
+        Sel(Sym("b"), Item(List3(X, Y, Num("1")), <<"idx", 1>>), X)}
+  \* kinds with point rules
+  \cup {Op1(k, n) : k \in PointK, n \in {Num("0"), Num("1"), Num("2"), Num("-0.0"), Num("int:1"), Num("int:0"), X}}
+  \cup {Op2(k, Op1(p, n), X) : k \in {"add", "multiply"}, p \in {"log", "log2", "log10", "log1p"}, n \in {Num("0"), Num("1")}}
+  \cup {Op2("hypot", a, b) : a \in {Num("3"), X, Num("0")}, b \in {Num("4"), Y, Num("0")}}
+  \cup {Op1("is_finite", a) : a \in {X, Num("1"), Named("posinf"), Named("largest"), Op2("add", X, Y)}}
+  \cup {Sel(Op1("is_finite", X), X, Y), Not(Op1("is_finite", X))}
+
+CRLeaves == RLeaves
+RECURSIVE RandC(_), RandXR(_)
+RandC(d) ==
+  IF d = 0 THEN RandomElement(CLeaves)
+  ELSE LET c == RandomElement(1..10)
+       IN  CASE c <= 2 -> RandomElement(CLeaves)
+             [] c <= 4 -> Op1(RandomElement({"conjugate", "negative", "positive"}), RandC(d - 1))
+             [] c <= 7 -> Op2(RandomElement({"add", "subtract", "multiply"}), RandC(d - 1), RandC(d - 1))
+             [] c <= 8 -> Cx(RandXR(d - 1), RandXR(d - 1))
+             [] c <= 9 -> Op2(RandomElement({"add", "subtract", "multiply"}), RandC(d - 1), RandXR(d - 1))
+             [] OTHER -> Op3("select", RandB(d - 1), RandC(d - 1), RandC(d - 1))
+RandXR(d) ==
+  IF d = 0 THEN RandomElement(CRLeaves)
+  ELSE LET c == RandomElement(1..12)
+       IN  CASE c <= 1 -> RandomElement(CRLeaves)
+             [] c <= 3 -> Op1(RandomElement({"real", "imag", "absolute"}), RandC(d - 1))
+             [] c <= 5 -> Op1(RandomElement(R1Kinds), RandXR(d - 1))
+             [] c <= 7 -> Op2(RandomElement(R2Kinds), RandXR(d - 1), RandXR(d - 1))
+             [] c <= 8 -> Up(Down(RandXR(d - 1)))
+             [] c <= 9 -> Down(Up(RandXR(d - 1)))
+             [] c <= 10 -> Down(Op2(RandomElement({"add", "multiply"}), Up(RandXR(d - 1)), Up(RandXR(d - 1))))
+             [] c <= 11 -> Item(List3(RandXR(d - 1), RandXR(d - 1), RandXR(d - 1)), <<"idx", RandomElement(0..2)>>)
+             [] OTHER -> Op3("select", RandB(d - 1), RandXR(d - 1), RandXR(d - 1))
+
 (*************************** emission ***************************************)
 VARIABLE n
-TermSet == CASE Gen = "small" -> SmallTerms [] Gen = "relop" -> RelopTerms [] Gen = "rules" -> RuleTerms [] OTHER -> {}
+TermSet == CASE Gen = "small" -> SmallTerms [] Gen = "relop" -> RelopTerms [] Gen = "rules" -> RuleTerms
+             [] Gen = "ext" -> ExtTerms [] OTHER -> {}
+IsRandom == Gen \in {"random", "extrandom"}
 Init == n = 0
-Next == \/ /\ Gen # "random" /\ n = 0 /\ n' = 1
+Next == \/ /\ ~IsRandom /\ n = 0 /\ n' = 1
            /\ \A t \in TermSet : PrintT(<<"H", t>>)
         \/ /\ Gen = "random" /\ n < NumRandom /\ n' = n + 1
            /\ \E d \in {RandomElement(2..MaxDepth)}, w \in {RandomElement(1..3)} :
                   PrintT(<<"H", IF w = 1 THEN RandB(d) ELSE RandR(d)>>)
+        \/ /\ Gen = "extrandom" /\ n < NumRandom /\ n' = n + 1
+           /\ \E d \in {RandomElement(2..MaxDepth)}, w \in {RandomElement(1..3)} :
+                  PrintT(<<"H", IF w = 1 THEN RandC(d) ELSE RandXR(d)>>)
 Spec == Init /\ [][Next]_n
 =============================================================================
